@@ -409,9 +409,16 @@ func judge(s *Sub, o *Obs) []Viol {
 	for _, t := range o.Ticks {
 		count[t]++
 	}
+	// byte-identical twin modules share the label "twin": it owes one run per twin the model loaded
+	owed := map[string]int{}
+	if s.Want != nil {
+		for _, t := range s.Want.Ticks {
+			owed[t]++
+		}
+	}
 	var twice []string
 	for id, n := range count {
-		if n > 1 && !strings.HasPrefix(id, "SENTINEL:") {
+		if n > 1 && n > owed[id] && !strings.HasPrefix(id, "SENTINEL:") {
 			twice = append(twice, id)
 		}
 	}
@@ -459,6 +466,9 @@ func judge(s *Sub, o *Obs) []Viol {
 	for _, t := range s.Want.Ticks {
 		if count[t] == 0 {
 			add("import-wrong-module:"+s.Shape, fmt.Sprintf("module %q was imported but its body never ran", t))
+		} else if count[t] < owed[t] {
+			add("import-wrong-module:"+s.Shape, fmt.Sprintf("%d modules with identical text (label %q) were imported, only %d bodies ran", owed[t], t, count[t]))
+			break
 		}
 	}
 	for id := range count {
